@@ -113,3 +113,10 @@ Proof. exact repaired_witnesses_lem. Qed.
 Check repaired_witnesses :
   forallb (agrees (new_opts 14)) [W_if; W_while; W_for; W_exp_bigint; W_exp_valueof; W_forin; W_div0; W_ref] = true.
 Print Assumptions repaired_witnesses.
+
+(* still unsound in the repaired folder: `lit || function(){}` under a computed key gets a name (known finding
+   fold-logical-function-name; fixes.d/C05-fold-logical-function-name.patch) *)
+Theorem fold_logical_function_name_refuted : differs (new_opts 2) W_fname = true.
+Proof. exact fold_logical_function_name_refuted_lem. Qed.
+Check fold_logical_function_name_refuted : differs (new_opts 2) W_fname = true.
+Print Assumptions fold_logical_function_name_refuted.
